@@ -68,27 +68,22 @@ def RegI.nba (wd : Nat → Nat) (V : Nat → Nat) (R : RegI) : List (Tgt × BV) 
 
 /-- the ports of the flattened instance carry the simulator's values of the connected nets -/
 structure RegKnown (wd : Nat → Nat) (V : Nat → Nat) (r : Rd) (R : RegI) : Prop where
-  d : Known r (R.pfx ++ "d") (wd R.leaf.d) (V R.leaf.d)
-  e : R.leaf.hasE = true → Known r (R.pfx ++ "e") (wd R.leaf.e) (V R.leaf.e)
-  r : R.leaf.hasR = true → Known r (R.pfx ++ "r") (wd R.leaf.r) (V R.leaf.r)
-  rq : r.info R.rq = some { width := wd R.leaf.q }
-  rv : R.leaf.rv < 2 ^ 31
+  kd : Known r (R.pfx ++ "d") (wd R.leaf.d) (V R.leaf.d)
+  ke : R.leaf.hasE = true → Known r (R.pfx ++ "e") (wd R.leaf.e) (V R.leaf.e)
+  kr : R.leaf.hasR = true → Known r (R.pfx ++ "r") (wd R.leaf.r) (V R.leaf.r)
+  krq : r.info R.rq = some { width := wd R.leaf.q }
+  krv : R.leaf.rv < 2 ^ 31
 
 theorem fireAll_regs_acc (regs : List RegI) (r : Rd) (wd : Nat → Nat) (V : Nat → Nat)
     (h : ∀ R, R ∈ regs → RegKnown wd V r R) (q0 : List (Tgt × BV)) :
-    (regs.map RegI.proc).foldl (fun acc ep =>
-      match ep.1 with
-      | .pos _ =>
-          let x := exec (σ := Rd) id wrA none ep.2 { st := acc.1, nba := [] }
-          (x.st, acc.2 ++ x.nba)
-      | _ => acc) (r, q0) = (r, q0 ++ regs.flatMap (RegI.nba wd V)) := by
+    (regs.map RegI.proc).foldl fireStep (r, q0) = (r, q0 ++ regs.flatMap (RegI.nba wd V)) := by
   induction regs generalizing q0 with
   | nil => simp
   | cons R regs ih =>
     have hk := h R (by simp)
     have hx := reg_body_exec R.pfx R.leaf.hasR R.leaf.hasE R.leaf.rv (wd R.leaf.q) _ _ _ (V R.leaf.r) (V R.leaf.e)
-      (V R.leaf.d) hk.r hk.e hk.d hk.rq hk.rv []
-    simp only [List.map_cons, List.foldl, RegI.proc, hx, List.nil_append]
+      (V R.leaf.d) hk.kr hk.ke hk.kd hk.krq hk.krv []
+    simp only [List.map_cons, List.foldl, RegI.proc, fireStep, hx, List.nil_append]
     rw [ih (fun R' hR' => h R' (by simp [hR']))]
     simp [List.flatMap_cons, RegI.nba]
 
@@ -131,6 +126,7 @@ theorem applyNba_one (wd : Nat → Nat) (V : Nat → Nat) (R : RegI) (r : Rd)
     · simp only [h2, if_true, applyNbaA, List.foldl]
       by_cases e : n = R.rq <;> simp [e]
     · simp only [h2, if_false, Bool.false_eq_true, applyNbaA, List.foldl, wrA, setWhole, norm, hw, Nat.mod_mod, RegI.rq]
+      by_cases e : n = R.pfx ++ "rq" <;> simp [e]
 
 theorem applyNba_regs (wd : Nat → Nat) (V : Nat → Nat) (regs : List RegI) (hn : (regs.map RegI.rq).Nodup) (r : Rd)
     (hi : ∀ R, R ∈ regs → r.info R.rq = some { width := wd R.leaf.q }) :
@@ -154,7 +150,222 @@ theorem applyNba_regs (wd : Nat → Nat) (V : Nat → Nat) (regs : List RegI) (h
         have : R'.rq ≠ R.rq := fun e => hn.1 (e ▸ List.mem_map.mpr ⟨R', hR', rfl⟩)
         rw [if_neg this]
     · intro n hn'
-      simp only [List.mem_cons, not_or] at hn'
+      simp only [List.map_cons, List.mem_cons, not_or] at hn'
       rw [ih2 n hn'.2, applyNba_one wd V R r (hi R (by simp)), if_neg hn'.1]
+
+/-! ### the simulation relation and one clock cycle -/
+
+/-- hypotheses tying the flattened text `f` (assigns + one `always @(posedge …)` per `Reg`) to the flat netlist `D` -/
+structure SeqCorr (D : NetD) (f : V.Flat) (topo : List (LHS × Expr)) (regs : List RegI) (net : String → Option Nat) : Prop where
+  comb : CombCorr D f.assigns topo net
+  sched : D.SchedOK
+  regs_eq : D.regs = regs.map (·.leaf)
+  procs_eq : f.procs = regs.map RegI.proc
+  name_d : ∀ R, R ∈ regs → net (R.pfx ++ "d") = some R.leaf.d
+  name_e : ∀ R, R ∈ regs → R.leaf.hasE = true → net (R.pfx ++ "e") = some R.leaf.e
+  name_r : ∀ R, R ∈ regs → R.leaf.hasR = true → net (R.pfx ++ "r") = some R.leaf.r
+  name_rq : ∀ R, R ∈ regs → net R.rq = some R.leaf.q
+  /-- the `rq` variables are driven by no assign … -/
+  rq_undriven : ∀ R, R ∈ regs → R.rq ∉ f.assigns.map tgt
+  /-- … and are the only undriven names that denote register outputs -/
+  rq_only : ∀ n k, net n = some k → n ∉ f.assigns.map tgt → ∀ R, R ∈ regs → R.leaf.q = k → n = R.rq
+  /-- single driver: no two registers drive the same net -/
+  q_nodup : (regs.map (·.leaf.q)).Nodup
+  rv_lt : ∀ R, R ∈ regs → R.leaf.rv < 2 ^ 31
+
+/-- the two machines are in corresponding states: the Verilog store declares the nets; every UNDRIVEN name (top-level
+    inputs, the `rq` variables) carries the simulator's value of the net it denotes; each `Reg.value` is congruent to
+    its output wire; nothing is pending -/
+structure SeqRel (D : NetD) (as : List (LHS × Expr)) (net : String → Option Nat) (r : Rd) (s : State Int) : Prop where
+  inv : C06.Inv D.design s
+  prep : s.prepared = []
+  info : InfoOK D as net r
+  und : ∀ n k, net n = some k → n ∉ as.map tgt → r.val n = ⟨D.wd k, s.val k, true⟩
+  regst : ∀ j R, D.regs[j]? = some R → ∃ x : Nat, s.st (D.rid j) = (x : Int) ∧ x % 2 ^ D.wd R.q = s.val R.q
+
+theorem nodup_idx_inj {α β : Type} (f : α → β) (l : List α) (h : (l.map f).Nodup) (i j : Nat) (a b : α)
+    (hi : l[i]? = some a) (hj : l[j]? = some b) (e : f a = f b) : i = j := by
+  have hi' : (l.map f)[i]? = some (f a) := by simp [hi]
+  have hj' : (l.map f)[j]? = some (f b) := by simp [hj]
+  have hil : i < (l.map f).length := by
+    rcases Nat.lt_or_ge i (l.map f).length with h | h
+    · exact h
+    · rw [List.getElem?_eq_none h] at hi'; cases hi'
+  have hjl : j < (l.map f).length := by
+    rcases Nat.lt_or_ge j (l.map f).length with h | h
+    · exact h
+    · rw [List.getElem?_eq_none h] at hj'; cases hj'
+  exact (List.getElem?_inj hil h).mp (by rw [hi', hj', e])
+
+theorem nodup_map_of {α β γ : Type} (f : α → β) (g : α → γ) (l : List α) (h : (l.map f).Nodup)
+    (hg : ∀ a b, a ∈ l → b ∈ l → g a = g b → f a = f b) : (l.map g).Nodup := by
+  induction l with
+  | nil => simp
+  | cons x l ih =>
+    simp only [List.map_cons, List.nodup_cons] at h ⊢
+    refine ⟨?_, ih h.2 (fun a b ha hb => hg a b (by simp [ha]) (by simp [hb]))⟩
+    intro hmem
+    rcases List.mem_map.mp hmem with ⟨y, hy, e⟩
+    exact h.1 (List.mem_map.mpr ⟨y, hy, hg y x (by simp [hy]) (by simp) e⟩)
+
+section Step
+variable {D : NetD} {f : V.Flat} {topo : List (LHS × Expr)} {regs : List RegI} {net : String → Option Nat}
+
+theorem SeqCorr.rq_nodup (C : SeqCorr D f topo regs net) : (regs.map RegI.rq).Nodup := by
+  apply nodup_map_of (fun R : RegI => R.leaf.q) RegI.rq regs C.q_nodup
+  intro a b ha hb e
+  have h1 := C.name_rq a ha
+  have h2 := C.name_rq b hb
+  rw [e, h2] at h1
+  exact (Option.some.inj h1).symm
+
+theorem SeqCorr.q_not_comb (C : SeqCorr D f topo regs net) (R : RegI) (hR : R ∈ regs) :
+    ∀ c, c ∈ D.combs → c.out ≠ R.leaf.q :=
+  C.comb.undriven R.rq R.leaf.q (C.name_rq R hR) (C.rq_undriven R hR)
+
+/-- `propagateAll` keeps related states related (the Verilog side does nothing) -/
+theorem SeqRel.propagate (C : SeqCorr D f topo regs net) {r : Rd} {s : State Int} (h : SeqRel D f.assigns net r s) :
+    SeqRel D f.assigns net r (propagateAll D.design s) := by
+  refine ⟨C06.inv_propagateAll _ _ h.inv, by rw [propagate_prepared]; exact h.prep, h.info, ?_, ?_⟩
+  · intro n k hn hu
+    rw [h.und n k hn hu, propagate_val_other D s k (C.comb.undriven n k hn hu)]
+  · intro j R hR
+    obtain ⟨x, hx1, hx2⟩ := h.regst j R hR
+    refine ⟨x, by rw [propagate_st]; exact hx1, ?_⟩
+    rw [hx2, propagate_val_other]
+    rw [C.regs_eq] at hR
+    simp only [List.getElem?_map] at hR
+    cases hR' : regs[j]? with
+    | none => rw [hR'] at hR; cases hR
+    | some RI =>
+      rw [hR'] at hR
+      simp only [Option.map_some, Option.some.injEq] at hR
+      subst hR
+      exact C.q_not_comb RI (List.mem_of_getElem? hR')
+
+/-- **Stage 2: one clock cycle.**  `cycleA` (settle, all register bodies on pre-edge values, non-blocking updates applied
+    together, settle) corresponds to `clk(1)` (`propagateAll`, `clock()` of every `Reg`, `settleAll`, `propagateAll`):
+    related states go to related states, and afterwards EVERY name carries the simulator's value of its net. -/
+theorem cycle_corr (C : SeqCorr D f topo regs net) {r : Rd} {s : State Int} (h : SeqRel D f.assigns net r s) :
+    SeqRel D f.assigns net (cycleA f r) (clk D.design 1 s) ∧
+    Rel net D.wd (clk D.design 1 s).val (cycleA f r) := by
+  -- names
+  let d := D.design
+  let s1 := propagateAll d s
+  let r1 := settleA f.assigns r
+  have hr1 : Rel net D.wd s1.val r1 := comb_corr C.sched C.comb s h.inv r h.info h.und _ (Nat.le_refl _)
+  have hi1 : r1.info = r.info := iter_passA_info _ _ _
+  have hI1 : InfoOK D f.assigns net r1 := InfoOK_congr hi1.symm h.info
+  have h1 : SeqRel D f.assigns net r s1 := h.propagate C
+  -- the edge, Verilog side
+  have hknown : ∀ R, R ∈ regs → RegKnown D.wd s1.val r1 R := by
+    intro R hR
+    exact ⟨hr1 _ _ (C.name_d R hR), fun he => hr1 _ _ (C.name_e R hR he), fun hr => hr1 _ _ (C.name_r R hR hr),
+      hI1.width _ _ (C.name_rq R hR), C.rv_lt R hR⟩
+  have hfire : fireAll f.procs r1 = (r1, regs.flatMap (RegI.nba D.wd s1.val)) := by
+    rw [C.procs_eq]; exact fireAll_regs regs r1 D.wd s1.val hknown
+  let r2 := applyNbaA r1 (regs.flatMap (RegI.nba D.wd s1.val))
+  have hcyc : cycleA f r = settleA f.assigns r2 := by
+    show settleA f.assigns (applyNbaA (fireAll f.procs r1).1 (fireAll f.procs r1).2) = _
+    rw [hfire]
+  have hi2 : r2.info = r.info := by rw [applyNbaA_info, hi1]
+  have hI2 : InfoOK D f.assigns net r2 := InfoOK_congr hi2.symm h.info
+  have ⟨hv1, hv2⟩ := applyNba_regs D.wd s1.val regs C.rq_nodup r1 (fun R hR => hI1.width _ _ (C.name_rq R hR))
+  -- the edge, simulator side
+  let s2 := settleAll (clockDrivers d s1 d.drivers)
+  have hqinj : ∀ (i j : Nat) (R R' : RLeaf), D.regs[i]? = some R → D.regs[j]? = some R' → R.q = R'.q → i = j := by
+    intro i j R R' hi hj e
+    have hnd : (D.regs.map (·.q)).Nodup := by rw [C.regs_eq, List.map_map]; exact C.q_nodup
+    exact nodup_idx_inj (·.q) D.regs hnd i j R R' hi hj e
+  -- register states as naturals
+  have hold : ∃ old : Nat → Nat, ∀ j, j < D.regs.length →
+      s1.st (D.rid j) = (old j : Int) ∧ old j % 2 ^ D.wd (D.regs.getD j default).q = s1.val (D.regs.getD j default).q := by
+    refine ⟨fun j => (s1.st (D.rid j)).toNat, ?_⟩
+    intro j hj
+    obtain ⟨x, hx1, hx2⟩ := h1.regst j _ (getElem?_getD _ _ hj)
+    simp only [hx1, Int.toNat_natCast, hx2, and_self]
+  obtain ⟨old, hold⟩ := hold
+  have ⟨he1, he2, _, he4⟩ := edge_sim D s1 h1.prep hqinj old (fun j hj => (hold j hj).1)
+  have hs2 : C06.Inv d s2 := C06.inv_settleAll d _ (C06.inv_clockDrivers d s1 _ h1.inv)
+  -- related again on the undriven names
+  have hund2 : ∀ n k, net n = some k → n ∉ f.assigns.map tgt → r2.val n = ⟨D.wd k, s2.val k, true⟩ := by
+    intro n k hn hu
+    by_cases hq : ∃ R, R ∈ regs ∧ R.leaf.q = k
+    · obtain ⟨R, hR, hRk⟩ := hq
+      have hnrq := C.rq_only n k hn hu R hR hRk
+      subst hnrq
+      obtain ⟨j, hjl, hj⟩ := List.mem_iff_getElem.mp hR
+      have hjD : D.regs[j]? = some R.leaf := by
+        rw [C.regs_eq]; simp [List.getElem?_eq_getElem hjl, hj]
+      have hjlD : j < D.regs.length := by rw [C.regs_eq]; simpa using hjl
+      have hRd := getD_of_getElem? _ _ _ hjD
+      have ⟨hval, _⟩ := he1 j R.leaf hjD
+      have ⟨_, hmod⟩ := hold j hjlD
+      rw [hRd] at hmod
+      rw [hv1 R hR, ← hRk]
+      show _ = (⟨D.wd R.leaf.q, s2.val R.leaf.q, true⟩ : BV)
+      rw [hval, Bits.put_ofNat]
+      have hrq1 : r1.val R.rq = ⟨D.wd R.leaf.q, s1.val R.leaf.q, true⟩ := (hr1 _ _ (C.name_rq R hR)).val
+      unfold RegI.newRq regNextV C01.regNext
+      by_cases c1 : (R.leaf.hasR && s1.val R.leaf.r == 1) = true
+      · simp only [c1, if_true]
+      · simp only [c1, if_false, Bool.false_eq_true]
+        by_cases c2 : (R.leaf.hasE && s1.val R.leaf.e == 0) = true
+        · simp only [c2, if_true, hrq1, hmod]
+        · simp only [c2, if_false, Bool.false_eq_true]
+    · have hnot : ∀ R, R ∈ regs → R.leaf.q ≠ k := fun R hR e => hq ⟨R, hR, e⟩
+      have hnrq : n ∉ regs.map RegI.rq := by
+        intro hmem
+        rcases List.mem_map.mp hmem with ⟨R, hR, e⟩
+        have := C.name_rq R hR
+        rw [e, hn] at this
+        exact hnot R hR (Option.some.inj this).symm
+      have hr1n : r1.val n = r.val n := by
+        have := iter_eq_topo C.comb.perm C.comb.acyc r h.info.lhs _ (Nat.le_refl f.assigns.length)
+        show (Net.iter (passA f.assigns) f.assigns.length r).val n = _
+        rw [this]
+        apply passA_val_other topo r (fun a ha => h.info.lhs a (C.comb.perm.mem_iff.mpr ha))
+        intro b hb e
+        exact hu (List.mem_map.mpr ⟨b, C.comb.perm.mem_iff.mpr hb, e.symm⟩)
+      have hs2k : s2.val k = s.val k := by
+        rw [he2 k (fun R hR e => by
+          rw [C.regs_eq] at hR
+          rcases List.mem_map.mp hR with ⟨RI, hRI, e'⟩
+          exact hnot RI hRI (e' ▸ e))]
+        exact propagate_val_other D s k (C.comb.undriven n k hn hu)
+      rw [hv2 n hnrq, hr1n, h.und n k hn hu, hs2k]
+  -- settle again
+  have hr3 : Rel net D.wd (propagateAll d s2).val (settleA f.assigns r2) :=
+    comb_corr C.sched C.comb s2 hs2 r2 hI2 hund2 _ (Nat.le_refl _)
+  have hclk : clk d 1 s = { propagateAll d s2 with clks := (propagateAll d s2).clks + 1 } := rfl
+  have hi3 : (settleA f.assigns r2).info = r.info := by
+    show (Net.iter (passA f.assigns) f.assigns.length r2).info = _
+    rw [iter_passA_info, hi2]
+  rw [hcyc]
+  refine ⟨⟨?_, ?_, InfoOK_congr hi3.symm h.info, ?_, ?_⟩, ?_⟩
+  · rw [hclk]; exact C06.inv_propagateAll d s2 hs2
+  · rw [hclk]; show (propagateAll d s2).prepared = []; rw [propagate_prepared]; exact he4
+  · intro n k hn _
+    rw [hclk]
+    exact (hr3 n k hn).val
+  · intro j R hR
+    rw [hclk]
+    show ∃ x : Nat, (propagateAll d s2).st (D.rid j) = (x : Int) ∧ x % 2 ^ D.wd R.q = (propagateAll d s2).val R.q
+    have ⟨hval, hst⟩ := he1 j R hR
+    refine ⟨regNextV s1.val R (old j), by rw [propagate_st]; exact hst, ?_⟩
+    rw [propagate_val_other, hval, Bits.put_ofNat]
+    have hR' := hR
+    rw [C.regs_eq] at hR'
+    simp only [List.getElem?_map] at hR'
+    cases hRI : regs[j]? with
+    | none => rw [hRI] at hR'; cases hR'
+    | some RI =>
+      rw [hRI] at hR'
+      simp only [Option.map_some, Option.some.injEq] at hR'
+      subst hR'
+      exact C.q_not_comb RI (List.mem_of_getElem? hRI)
+  · rw [hclk]; exact hr3
+
+end Step
 
 end FlatM
